@@ -637,7 +637,7 @@ std::uint64_t judge_pair(ctx<T, N> &c, obox<N> const &a, typename lib<T, N>::box
     if (d1 != d2)
     {
       VF_COUNT("observed/distance-asymmetric-pairs");
-      vf::observation("distance/interval_distance<" + c.tag + "> is not symmetric for some pairs (count in bucket observed/distance-asymmetric-pairs; observed only)");
+      vf::observation(std::string("distance/interval_distance") + " is not symmetric for some pairs (count in bucket observed/distance-asymmetric-pairs; observed only)");
     }
   }
   return calls;
@@ -720,8 +720,8 @@ std::uint64_t judge_resize(ctx<T, N> &c, obox<N> const &a, typename lib<T, N>::b
       else if (!member<N>(got, p))
       {
         VF_COUNT("observed/extend-point-result-excludes-point");
-        vf::observation("extend_bounding_box(box,point)<" + c.tag +
-                        ">: for a point at or beyond the max face the result's max equals the point, so under the half-open reading the "
+        vf::observation(std::string("extend_bounding_box(box,point)") +
+                        ": for a point at or beyond the max face the result's max equals the point, so under the half-open reading the "
                         "result does not contain the point (count in bucket observed/extend-point-result-excludes-point; the statement names only the two-box form; observed only)");
       }
     }
